@@ -134,6 +134,15 @@ def _run(eng, world, contracts, qual, res, timeout_ms, concretise, keep_smt, onl
     ap0 = z3.Const('AP0', Int)
     st.ghost['$ap0'] = ap0
     st.ap = ap0
+    st.hook = lambda s_, f_: eng._wf_axiom(s_, f_)
+    # well-formedness of the initial heap for every field that can hold a reference (stated up front so that
+    # it is shared by all paths; the pattern-restricted axioms cost nothing until a matching term appears)
+    _fields = {'$val', '$of'}
+    for _ci in world.classes.values():
+        _fields |= set(_ci.fields)
+    _fields |= set(eng.stubs.fields)
+    for _f in sorted(_fields):
+        eng._wf_axiom(st, _f)
     args = {}
     a = fn.args
     decos = [d.id for d in fn.decorator_list if isinstance(d, ast.Name)]
